@@ -2,6 +2,8 @@ import Ptn.C11.Model
 import Ptn.C11.Spec
 import Ptn.C11.Lemmas
 import Ptn.C11.MatrixLemmas
+import Ptn.C11.Value
+import Ptn.C11.ValueLemmas
 /-! Property theorems for C11 (index logic of tensor QR / SVD).  Only property theorems and
 non-vacuity examples live here; helper lemmas are in `Lemmas.lean` / `MatrixLemmas.lean`, the
 specification vocabulary (`Bipartition`, `qrBond`, `qrPad`, `svdBonds`) in `Spec.lean`.
@@ -194,6 +196,168 @@ theorem contr_modes_same_product {R : Type*} {m n k : Type*} [Fintype k] [Decida
     (U * diagonal r) * (diagonal r * V) = U * (diagonal s * V) :=
   contr_same U V s r hr
 
+/-! ### Value level: the index bookkeeping of matricise → factorise → reshape back -/
+
+open Finset in
+/-- **Matricise / un-matricise at the level of entries** (value-level model `Value.lean`: arrays
+    are shape + flat C-order data, `transposeBy` / `reshape` act on multi-indices through `ravel` /
+    `unravel`).  For every array and every ordered bipartition `(a, b)` of its axes:
+    the transposed array `Tt` shows axis `(a ++ b)[j]` of the input at position `j`; entry
+    `(ravel qd ia, ravel rd ib)` of the matricised array is entry `ia ++ ib` of `Tt`; and for ANY
+    factorisation of the matrix over the leading `k` bond values, `M = Q · diag(w) · R` entrywise
+    (hypothesis: the contract of `numpy.linalg.qr` / `svd`; `Q` may have `cq ≥ k` columns, `R` `cr ≥ k`
+    rows), the factors reshaped to the shapes `_determine_tensor_shape` returns contract over the
+    bond to `Tt`, read with legs `(a…, b…)`.  The hypothesis is the contract; what is proved is the
+    index bookkeeping. -/
+theorem matricize_unmatricize {α : Type} [CommSemiring α] (T : Arr α) (a b : List Nat)
+    (h : Bipartition T.shape a b) :
+    ∃ qd rd Tt M, dimsOf T.shape a = some qd ∧ dimsOf T.shape b = some rd ∧
+      T.transposeBy a b = some Tt ∧ Tt.shape = qd ++ rd ∧
+      T.matricize a b = some M ∧ M.shape = [prod qd, prod rd] ∧
+      (∀ idx idx', ValidIdx T.shape idx → dimsOf idx (a ++ b) = some idx' →
+        ValidIdx (qd ++ rd) idx' ∧ Tt.get idx' = T.get idx) ∧
+      (∀ ia ib, ValidIdx qd ia → ValidIdx rd ib →
+        M.get [ravel qd ia, ravel rd ib] = Tt.get (ia ++ ib)) ∧
+      ∀ (Q R : Arr α) (cq cr k : ℕ) (w : ℕ → α),
+        Q.shape = [prod qd, cq] → R.shape = [cr, prod rd] →
+        (∀ i j, i < prod qd → j < prod rd →
+          ∑ l ∈ range k, Q.get [i, l] * w l * R.get [l, j] = M.get [i, j]) →
+        determineTensorShape T.shape (prod qd) cq a true = some (qd ++ [cq]) ∧
+        determineTensorShape T.shape cr (prod rd) b false = some (cr :: rd) ∧
+        ∀ ia ib, ValidIdx qd ia → ValidIdx rd ib →
+          ∑ l ∈ range k, (Q.reshape (qd ++ [cq])).get (ia ++ [l]) * w l *
+              (R.reshape (cr :: rd)).get (l :: ib) = Tt.get (ia ++ ib) := by
+  obtain ⟨hq, hr, _, _, _⟩ := matricize_ok T.shape a b h
+  have hT := transposeBy_some T a b h
+  refine ⟨_, _, _, _, hq, hr, hT, rfl, arr_matricize_some T _ a b h hT, rfl, ?_, ?_, ?_⟩
+  · intro idx idx' hv hsel
+    have hlt := perm_range_lt h
+    have hlen := validIdx_length _ _ hv
+    rw [dimsOf_of_lt idx (a ++ b) (by intro x hx; rw [hlen]; exact hlt x hx)] at hsel
+    injection hsel with hsel
+    subst hsel
+    refine ⟨?_, transposeBy_get T _ a b h hT idx hv⟩
+    rw [← List.map_append]
+    exact validIdx_map_dimAt T.shape idx hv (a ++ b) hlt
+  · intro ia ib hia hib
+    exact matricize_get _ _ _ ia ib rfl hia hib
+  · intro Q R cq cr k w hQ hR hc
+    refine ⟨determine_out T.shape a _ _ _ hq, determine_in T.shape b _ _ _ hr, ?_⟩
+    intro ia ib hia hib
+    exact reconstruct_core _ Q R _ _ cq cr k w rfl hQ hR hc ia ib hia hib
+
+open Finset in
+/-- **QR reconstructs (REDUCED, FULL).**  With NumPy's `Q : (m, k)`, `R : (k, n)`, `Q·R = M`
+    entrywise (contract), the tensors returned by `tensor_qr_decomposition` — `Q`, `R` reshaped to the
+    model's `res.q.shape`, `res.r.shape` — contract over the new bond (`res.bond` values) to the input
+    transposed by `a ++ b`. -/
+theorem qr_reconstructs {α : Type} [CommSemiring α] (mode : Mode) (hm : mode ≠ .keep) (T : Arr α)
+    (a b : List Nat) (h : Bipartition T.shape a b) :
+    ∃ qd rd Tt res, dimsOf T.shape a = some qd ∧ dimsOf T.shape b = some rd ∧
+      T.transposeBy a b = some Tt ∧ tensorQR mode T.shape a b = some res ∧
+      ∀ (Q R : Arr α),
+        Q.shape = [prod qd, numpyQRInner mode (prod qd) (prod rd)] →
+        R.shape = [numpyQRInner mode (prod qd) (prod rd), prod rd] →
+        (∀ i j, i < prod qd → j < prod rd →
+          ∑ l ∈ range (numpyQRInner mode (prod qd) (prod rd)), Q.get [i, l] * R.get [l, j]
+            = (Tt.reshape [prod qd, prod rd]).get [i, j]) →
+        ∀ ia ib, ValidIdx qd ia → ValidIdx rd ib →
+          ∑ l ∈ range res.bond, (Q.reshape res.q.shape).get (ia ++ [l]) *
+              (R.reshape res.r.shape).get (l :: ib) = Tt.get (ia ++ ib) := by
+  obtain ⟨hq, hr, _, _, _⟩ := matricize_ok T.shape a b h
+  have hT := transposeBy_some T a b h
+  have hres := tensorQR_some mode T.shape a b h (fun hk => absurd hk hm)
+  refine ⟨_, _, _, _, hq, hr, hT, hres, ?_⟩
+  intro Q R hQ hR hc ia ib hia hib
+  have hb : qrBond mode (prod (a.map (dimAt T.shape))) (prod (b.map (dimAt T.shape))) =
+      numpyQRInner mode (prod (a.map (dimAt T.shape))) (prod (b.map (dimAt T.shape))) := by
+    cases mode <;> simp_all [qrBond, numpyQRInner]
+  simp only [hb]
+  have := reconstruct_core _ Q R _ _ _ _ _ (fun _ => (1 : α)) rfl hQ hR
+    (by intro i j hi hj; simpa using hc i j hi hj) ia ib hia hib
+  simpa using this
+
+open Finset in
+/-- **QR reconstructs (KEEP).**  The zero-padded factors (`np.pad` on the last axis of Q and the
+    first axis of R by `res.pad`) have exactly the model's shapes and contract over the padded bond
+    (`res.bond = n` values) to the input transposed by `a ++ b`: the index-level form of
+    `keep_pad_sound`. -/
+theorem keep_reconstructs {α : Type} [CommSemiring α] (T : Arr α) (a b : List Nat)
+    (h : Bipartition T.shape a b) (hb : b ≠ []) :
+    ∃ qd rd Tt res, dimsOf T.shape a = some qd ∧ dimsOf T.shape b = some rd ∧
+      T.transposeBy a b = some Tt ∧ tensorQR .keep T.shape a b = some res ∧
+      ∀ (Q R : Arr α),
+        Q.shape = [prod qd, min (prod qd) (prod rd)] →
+        R.shape = [min (prod qd) (prod rd), prod rd] →
+        (∀ i j, i < prod qd → j < prod rd →
+          ∑ l ∈ range (min (prod qd) (prod rd)), Q.get [i, l] * R.get [l, j]
+            = (Tt.reshape [prod qd, prod rd]).get [i, j]) →
+        ((Q.reshape (qd ++ [min (prod qd) (prod rd)])).padLast 0 res.pad).shape = res.q.shape ∧
+        ((R.reshape (min (prod qd) (prod rd) :: rd)).padFirst 0 res.pad).shape = res.r.shape ∧
+        ∀ ia ib, ValidIdx qd ia → ValidIdx rd ib →
+          ∑ l ∈ range res.bond,
+            ((Q.reshape (qd ++ [min (prod qd) (prod rd)])).padLast 0 res.pad).get (ia ++ [l]) *
+            ((R.reshape (min (prod qd) (prod rd) :: rd)).padFirst 0 res.pad).get (l :: ib)
+              = Tt.get (ia ++ ib) := by
+  obtain ⟨hq, hr, _, _, _⟩ := matricize_ok T.shape a b h
+  have hT := transposeBy_some T a b h
+  have hres := tensorQR_some .keep T.shape a b h (fun _ => hb)
+  refine ⟨_, _, _, _, hq, hr, hT, hres, ?_⟩
+  intro Q R hQ hR hc
+  generalize hqd : a.map (dimAt T.shape) = qd at *
+  generalize hrd : b.map (dimAt T.shape) = rd at *
+  have hkn : min (prod qd) (prod rd) + (prod rd - min (prod qd) (prod rd)) = prod rd := by omega
+  refine ⟨?_, ?_, ?_⟩
+  · simp [Arr.padLast, Arr.reshape, qrBond, qrPad, hkn]
+  · simp [Arr.padFirst, Arr.reshape, qrBond, qrPad, hkn]
+  · intro ia ib hia hib
+    simp only [qrBond, qrPad]
+    rw [← hkn]
+    rw [sum_padded]
+    · rw [hkn]
+      have := reconstruct_core _ Q R qd rd _ _ _ (fun _ => (1 : α)) rfl hQ hR
+        (by intro i j hi hj; simpa using hc i j hi hj) ia ib hia hib
+      simp only [mul_one] at this
+      rw [← this]
+      apply sum_congr rfl
+      intro l hl
+      have hl' := mem_range.mp hl
+      rw [padLast_get _ 0 qd ia _ _ l rfl hia (by omega),
+        padFirst_get _ 0 rd ib _ _ l rfl hib]
+      simp [hl']
+    · intro l h1 h2
+      rw [hkn, padLast_get _ 0 qd ia _ _ l rfl hia (by omega)]
+      have : ¬ l < min (prod qd) (prod rd) := by omega
+      simp [this]
+
+open Finset in
+/-- **SVD reconstructs (all modes).**  With NumPy's `U : (m, cu)`, `S`, `Vh : (cv, n)` and
+    `Σ_{l < min m n} U[i,l] S[l] Vh[l,j] = M[i,j]` (contract; in FULL / KEEP `cu = m`, `cv = n`, so only
+    the leading `len S` columns / rows enter), the reshaped factors contract through their leading
+    `res.sLen` bond values to the input transposed by `a ++ b`. -/
+theorem svd_reconstructs {α : Type} [CommSemiring α] (mode : Mode) (T : Arr α)
+    (a b : List Nat) (h : Bipartition T.shape a b) :
+    ∃ ud vd Tt res, dimsOf T.shape a = some ud ∧ dimsOf T.shape b = some vd ∧
+      T.transposeBy a b = some Tt ∧ tensorSVD mode T.shape a b = some res ∧
+      ∀ (U Vh : Arr α) (s : ℕ → α),
+        U.shape = [prod ud, (svdBonds mode (prod ud) (prod vd)).1] →
+        Vh.shape = [(svdBonds mode (prod ud) (prod vd)).2.2, prod vd] →
+        (∀ i j, i < prod ud → j < prod vd →
+          ∑ l ∈ range (min (prod ud) (prod vd)), U.get [i, l] * s l * Vh.get [l, j]
+            = (Tt.reshape [prod ud, prod vd]).get [i, j]) →
+        ∀ ia ib, ValidIdx ud ia → ValidIdx vd ib →
+          ∑ l ∈ range res.sLen, (U.reshape res.u.shape).get (ia ++ [l]) * s l *
+              (Vh.reshape res.vh.shape).get (l :: ib) = Tt.get (ia ++ ib) := by
+  obtain ⟨hq, hr, _, _, _⟩ := matricize_ok T.shape a b h
+  have hT := transposeBy_some T a b h
+  refine ⟨_, _, _, _, hq, hr, hT, tensorSVD_eq mode T.shape a b h, ?_⟩
+  intro U Vh s hU hV hc ia ib hia hib
+  have hk : (svdBonds mode (prod (a.map (dimAt T.shape))) (prod (b.map (dimAt T.shape)))).2.1 =
+      min (prod (a.map (dimAt T.shape))) (prod (b.map (dimAt T.shape))) := by
+    cases mode <;> simp [svdBonds]
+  simp only [hk]
+  exact reconstruct_core _ U Vh _ _ _ _ _ s rfl hU hV hc ia ib hia hib
+
 /-! ### Non-vacuity: concrete instances -/
 
 -- a permuted bipartition of an order-4 tensor with a dimension-1 leg
@@ -231,5 +395,25 @@ example : (truncatedSVD [2, 3, 4] [2, 1] [0] 1).map (fun r => (r.u.shape, r.sLen
 example : ((Matrix.of ![![1], ![0]] : Matrix (Fin 2) (Fin 1) ℤ).conjTranspose *
     (Matrix.of ![![1], ![0]] : Matrix (Fin 2) (Fin 1) ℤ)) = 1 := by decide
 example : ∀ i : Fin 2, (![2, 3] : Fin 2 → ℤ) i * ![2, 3] i = ![4, 9] i := by decide
+
+-- value level: a 2×3 array with entries 0..5; transposing by ([1],[0]) shows T[1,2] = 5 at [2,1]
+example : ((⟨[2, 3], fun k => k⟩ : Arr ℕ).transposeBy [1] [0]).map (fun A => (A.shape, A.get [2, 1]))
+    = some ([3, 2], 5) := by decide
+-- an order-3 array, bipartition ([2,0],[1]): matricised entry (ravel [4,2] [3,1], 2) = T[1,2,3]
+example : ((⟨[2, 3, 4], fun k => k⟩ : Arr ℕ).matricize [2, 0] [1]).map
+    (fun M => (M.shape, M.get [ravel [4, 2] [3, 1], 2])) = some ([8, 3], ravel [2, 3, 4] [1, 2, 3]) := by
+  decide
+-- the contract hypothesis is satisfiable: M = 1 · M for the 2×2 array [[1,2],[3,4]]
+example : ∀ i j, i < 2 → j < 2 →
+    ∑ l ∈ Finset.range 2, (⟨[2, 2], fun k => if k = 0 ∨ k = 3 then 1 else 0⟩ : Arr ℕ).get [i, l] *
+      (⟨[2, 2], fun k => k + 1⟩ : Arr ℕ).get [l, j] = (⟨[2, 2], fun k => k + 1⟩ : Arr ℕ).get [i, j] := by
+  intro i j hi hj
+  have hi' : i = 0 ∨ i = 1 := by omega
+  have hj' : j = 0 ∨ j = 1 := by omega
+  rcases hi' with rfl | rfl <;> rcases hj' with rfl | rfl <;> decide
+-- padding: one zero column appended to a 2×1 array
+example : ((⟨[2, 1], fun k => k + 7⟩ : Arr ℕ).padLast 0 1).shape = [2, 2] ∧
+    ((⟨[2, 1], fun k => k + 7⟩ : Arr ℕ).padLast 0 1).get [1, 0] = 8 ∧
+    ((⟨[2, 1], fun k => k + 7⟩ : Arr ℕ).padLast 0 1).get [1, 1] = 0 := by decide
 
 end Ptn.C11
